@@ -10,7 +10,7 @@ func init() {
 	extraLemmaFuncs = append(extraLemmaFuncs, "capnp.canonicalPtr", "capnp.Canonicalize")
 	Register(&Spec{
 		ID:          "C18",
-		Explanation: "Decides structural necessary conditions of canonicalisation: (R1) the data-only bulk-copy path of canonicalList is taken only for lists that are neither composite nor pointer-bearing, so composite lists always get a tag word and per-element truncation; (R2) every struct emitted (root, pointer fields, every composite-list element) is sized by canonicalStructSize of its source, and the composite list's element size is the maximum of its elements' canonical sizes; (R3) capabilities are rejected with an error and the output is the data of one fresh single-segment message; (R4) children are allocated in pre-order (a child is allocated by canonicalPtr after its parent and before the next sibling, then linked), and every error propagates. (R4e) no error test on a value already known to be nil whose branch handles another, untested error. Does NOT decide byte-identity across layouts or idempotence as value-level facts.",
+		Explanation: "Decides structural necessary conditions of canonicalisation: (R1) the data-only bulk-copy path of canonicalList is taken only for lists that are neither composite nor pointer-bearing, so composite lists always get a tag word and per-element truncation; (R2) every struct emitted (root, pointer fields, every composite-list element) is sized by canonicalStructSize of its source, and (R2e, on SSA values, not names) the element size handed to NewCompositeList is an accumulator every update of which stores a component of canonicalStructSize(src.Struct(i)) under accumulated < element, in a loop from 0 while i < src.Len(); (R5s) a window from Segment.slice is not used after a call that can allocate (the single output segment grows by copying); (R3) capabilities are rejected with an error and the output is the data of one fresh single-segment message; (R4) children are allocated in pre-order (a child is allocated by canonicalPtr after its parent and before the next sibling, then linked), and every error propagates. (R4e) no error test on a value already known to be nil whose branch handles another, untested error. Does NOT decide byte-identity across layouts or idempotence as value-level facts.",
 		Run:         runC18,
 	})
 }
@@ -21,8 +21,8 @@ var canonicalSpecs = []anchorSpec{
 	{"capnp.canonicalList", "capnp.NewPointerList", 1, []string{"p0", "p1.length"}, []string{"(1:listFlags & p1.flags) == 0:listFlags"}, "pointer lists are rebuilt pointer by pointer"},
 	{"capnp.canonicalList", "capnp.canonicalPtr", 1, []string{"p0", "At(complit, phi)#0"}, []string{"At(complit, phi)#1 == nil", "phi < Len(p1)"}, "each pointer-list element is canonicalised recursively"},
 	{"capnp.canonicalList", "capnp.canonicalStructSize", 1, []string{"Struct(p1, phi)"}, []string{"(1:listFlags & p1.flags) != 0:listFlags", "phi < Len(p1)"}, "composite lists: canonical size of every element is taken"},
-	{"capnp.canonicalList", "capnp.NewCompositeList", 1, []string{"p0", "elemSize", "p1.length"}, []string{"(1:listFlags & p1.flags) != 0:listFlags"}, "composite list is re-created with the maximal truncated element size and a tag word"},
-	{"capnp.canonicalList", "capnp.fillCanonicalStruct", 1, []string{"Struct(NewCompositeList(p0, elemSize, p1.length)#0, phi)", "Struct(p1, phi)"}, []string{"NewCompositeList(p0, elemSize, p1.length)#1 == nil"}, "every element is filled from the element with the same index"},
+	{"capnp.canonicalList", "capnp.NewCompositeList", 1, []string{"p0", "§", "p1.length"}, []string{"(1:listFlags & p1.flags) != 0:listFlags"}, "composite list is re-created with a tag word and the accumulated element size (C18-R2e decides what that is)"},
+	{"capnp.canonicalList", "capnp.fillCanonicalStruct", 1, []string{"Struct(NewCompositeList(p0, §, p1.length)#0, phi)", "Struct(p1, phi)"}, []string{"NewCompositeList(p0, §, p1.length)#1 == nil"}, "every element is filled from the element with the same index"},
 	{"capnp.canonicalPtr", "capnp.NewStruct", 1, []string{"p0", "canonicalStructSize(Struct(p1))"}, []string{"0:int == ptrType(p1.flags)"}, "a struct child is allocated with its truncated size"},
 	{"capnp.canonicalPtr", "capnp.fillCanonicalStruct", 1, []string{"NewStruct(p0, canonicalStructSize(Struct(p1)))#0", "Struct(p1)"}, []string{"NewStruct(p0, canonicalStructSize(Struct(p1)))#1 == nil"}, "the child is filled right after its allocation (pre-order)"},
 	{"capnp.canonicalPtr", "capnp.newError", 1, nil, []string{"2:int == ptrType(p1.flags)"}, "interface pointers are rejected"},
@@ -48,6 +48,7 @@ func runC18(ctx *Ctx) {
 		ruleKernelLemmas(ctx, "C18-R2", []string{"capnp.canonicalPtr", "capnp.Canonicalize"})
 	}
 	ruleCanonicalElemSize(ctx, "C18-R2e")
+	ruleNoSliceAcrossAlloc(ctx, "C18-R5s")
 	r := ctx.Rep
 	r.Floor("C18-R1", 15)
 	r.Floor("C18-R3", 1)
@@ -78,51 +79,5 @@ func ruleCanonicalResult(ctx *Ctx, rule string) {
 		r.Ok(rule, "Canonicalize | result is the data of the fresh segment", q.Pos(f.Pos()), "returns seg.Data() of the single segment after filling the root")
 	} else {
 		r.Violation(rule, "Canonicalize | result is the data of the fresh segment", q.Pos(f.Pos()), "the success path no longer returns the bytes of the fresh single segment after fillCanonicalStruct")
-	}
-}
-
-// ruleCanonicalElemSize: elemSize is the component-wise maximum of the elements' canonical sizes.
-func ruleCanonicalElemSize(ctx *Ctx, rule string) {
-	q := ssaq.For(ctx.Prog)
-	r := ctx.Rep
-	f := q.Func("capnp.canonicalList")
-	if f == nil {
-		r.Fail("%s: canonicalList not found", rule)
-		return
-	}
-	want := map[string]string{
-		"DataSize":     "elemSize.DataSize < sz.DataSize",
-		"PointerCount": "elemSize.PointerCount < sz.PointerCount",
-	}
-	found := map[string]bool{}
-	for _, a := range ssaq.Anchors(f) {
-		for _, at := range a.Atoms {
-			for k, w := range want {
-				if at == w {
-					found[k] = true
-				}
-			}
-		}
-	}
-	// the stores elemSize.X = sz.X under those atoms
-	for k, w := range want {
-		key := "canonicalList | element " + k + " is the maximum over all elements"
-		okStore := false
-		for _, b := range f.Blocks {
-			for _, in := range b.Instrs {
-				s := in.String()
-				_ = s
-				for _, at := range ssaq.DomAtoms(in) {
-					if at == w {
-						okStore = true
-					}
-				}
-			}
-		}
-		if okStore {
-			r.Ok(rule, key, q.Pos(f.Pos()), "updated under "+w)
-		} else {
-			r.Violation(rule, key, q.Pos(f.Pos()), "no update of elemSize under "+w+": elements could be truncated below their content or not truncated at all")
-		}
 	}
 }
